@@ -17,7 +17,7 @@ LAST_CLAIMED_EPOCH.save(sender, newest claimable epoch id) lies on every success
 epochs with id > last claimed, respectively id > first bonded epoch (strict comparisons inside the retain closures),
 and clears the list for an address that never bonded. D3: in `reply`, the expiring epoch's available (before it is
 emptied) is aggregated into the new epoch's total AND available (one aggregate_assets result feeds both fields), the
-expiring epoch is saved with available = [], the new epoch is saved once. D4: EPOCHS is written only by reply/claim
+expiring epoch is saved with available = [], the new epoch is saved once. D5: the expiring epoch is selected from exactly the claimable window (no extra filtering). D4: EPOCHS is written only by reply/claim
 and LAST_CLAIMED_EPOCH only by claim (migrations excepted).
 """
 ASSUMPTIONS = [
@@ -210,6 +210,52 @@ def check_reply(ctx, model):
                    "expiring epoch is saved only after its available was aggregated into the new epoch", v.where(sb))
 
 
+def check_window_selection(ctx, model):
+    """D5: the epoch that expires is the last of the `grace_period` most recent epochs -- selected exactly like the
+    claimable window (range Descending, take(grace_period), collect) with no further filtering; the two selections
+    are compared as multisets of iterator/vector/storage operations, the expiring one being allowed only the
+    extra len()/last()/cloned()/unwrap_or_default()."""
+    from collections import Counter
+    a = ctx.view("fee_distributor::state::get_expiring_epoch", "C09-D5")
+    b = ctx.view("fee_distributor::state::get_claimable_epochs", "C09-D5")
+    if a is None or b is None:
+        return
+    voc = re.compile(r"as std::iter::Iterator>::(\w+)$|^std::vec::Vec::(\w+)$|^std::slice::(\w+)$|^cw_storage_plus::\w+::(\w+)$|^std::option::Option::(\w+)$")
+
+    def toks(v):
+        c = Counter()
+        for bb, t in v.iter_calls():
+            m_ = voc.search(mname(t))
+            if m_:
+                c[next(g for g in m_.groups() if g)] += 1
+        return c
+    ta, tb = toks(a), toks(b)
+    allowed_extra = Counter({"len": 1, "last": 1, "cloned": 1, "unwrap_or_default": 1})
+    extra = (ta - tb) - allowed_extra
+    missing = tb - ta
+    ctx.ob("C09-D5", "get_expiring_epoch==window-of-get_claimable_epochs", not extra and not missing,
+           "expiring-epoch selection operations beyond the claimable window's: %s; missing: %s (window ops: %s)" % (dict(extra), dict(missing), dict(tb)), a.where())
+    # order Descending and take(grace_period) in both
+    for v in (a, b):
+        desc = any(o.kind == "agg" and o.a.endswith("Order::Descending") for bb, t in v.calls_to(r"cw_storage_plus::Map::range$") for o in arg_origins(v, bb, t, 4))
+        take = False
+        for bb, t in v.calls_to(r"as std::iter::Iterator>::take$"):
+            a1 = arg_origins(v, bb, t, 1, taint=True)
+            take = any(o.kind == "load" and tuple(o.proj) == ("grace_period",) for o in a1)
+        ctx.ob("C09-D5", "%s|newest-first-window" % v.path, desc and take, "range(.., Descending): %s; take(CONFIG.grace_period): %s" % (desc, take), v.where())
+    # len == grace_period decides whether something expires
+    ok = False
+    for bb, c, _ in switch_conds(a):
+        if c.kind == "cmp" and c.op in ("==", "!="):
+            at = (c.site[1], c.site[2]) if c.site[0] == "s" else a.at_term(c.site[1])
+            oa = a.origins_of_operand(c.a, at=at, taint=True)
+            ob = a.origins_of_operand(c.b, at=at, taint=True)
+            if (any(o.kind == "call" and o.a.endswith("Vec::len") for o in oa) and any(o.kind == "load" and tuple(o.proj) == ("grace_period",) for o in ob)) or \
+               (any(o.kind == "call" and o.a.endswith("Vec::len") for o in ob) and any(o.kind == "load" and tuple(o.proj) == ("grace_period",) for o in oa)):
+                ok = True
+    ctx.ob("C09-D5", "get_expiring_epoch|full-window-test", ok, "an epoch expires iff the window holds grace_period epochs: %s" % ok, a.where())
+
+
 def check_writers(ctx, model):
     allowed = {"fee_distributor::state::LAST_CLAIMED_EPOCH": {CLAIM}, "fee_distributor::state::EPOCHS": {CLAIM, REPLY}}
     n = 0
@@ -228,4 +274,5 @@ def run(ctx):
     check_claim(ctx, model)
     check_query_claimable(ctx, model)
     check_reply(ctx, model)
+    check_window_selection(ctx, model)
     check_writers(ctx, model)
